@@ -70,7 +70,7 @@ INDEX = {
    {"name": "VerifH09MutexCrash", "package": ".", "common": {"max_depth": 3000}, "quick": {"bounds": {"steps": 2, "ops": 4, "rows": 2}}, "thorough": {"bounds": {"steps": 3, "ops": 4, "rows": 3}}},
  ]},
  "C10": {"package": ".", "harnesses": [
-   {"name": "VerifH10Checksums", "common": {"max_depth": 2000}, "quick": {"bounds": {"ops": 9, "rows": 2, "colhis": 1, "caches": 3}}, "thorough": {"bounds": {"ops": 9, "rows": 3, "colhis": 2, "caches": 3}}},
+   {"name": "VerifH10Checksums", "thorough_ok": True, "common": {"max_depth": 2000}, "quick": {"bounds": {"ops": 9, "rows": 2, "colhis": 1, "caches": 3}}, "thorough": {"bounds": {"ops": 9, "rows": 3, "colhis": 2, "caches": 3}}},
  ]},
  "C11": {"package": ".", "harnesses": [
    {"name": "VerifH11MergeBlock", "common": {"max_depth": 2000}, "quick": {"bounds": {"local": 1, "remotes": 2, "pairs": 2, "rows": 2, "colhis": 1}}, "thorough": {"bounds": {"local": 2, "remotes": 3, "pairs": 2, "rows": 3, "colhis": 2}}},
@@ -82,14 +82,14 @@ INDEX = {
  "C13": {"package": ".", "harnesses": [
    {"name": "VerifH13Mutex", "common": {"max_depth": 2000}, "quick": {"bounds": {"steps": 2, "ops": 3, "batch": 2}}, "thorough": {"bounds": {"steps": 2, "ops": 3, "batch": 3}}},
    {"name": "VerifH13Bool", "common": {"max_depth": 2000}, "quick": {"bounds": {"steps": 2, "ops": 3, "batch": 2}}},
-   {"name": "VerifH13Rounds", "common": {"max_depth": 3000}, "quick": {"bounds": {"rounds": 3, "roundcols": 5}}, "thorough": {"bounds": {"rounds": 4, "roundcols": 7}}},
-   {"name": "VerifH13BigBatch", "common": {"max_depth": 3000}, "quick": {"bounds": {"bigbatch": 16}}, "thorough": {"bounds": {"bigbatch": 24}}},
+   {"name": "VerifH13Rounds", "thorough_ok": True, "common": {"max_depth": 3000}, "quick": {"bounds": {"rounds": 3, "roundcols": 5}}, "thorough": {"bounds": {"rounds": 4, "roundcols": 7}}},
+   {"name": "VerifH13BigBatch", "thorough_ok": True, "common": {"max_depth": 3000}, "quick": {"bounds": {"bigbatch": 16}}, "thorough": {"bounds": {"bigbatch": 24}}},
  ]},
  "C14": {"package": ".", "harnesses": [
-   {"name": "VerifH14Value", "common": {"max_depth": 2000}, "quick": {"bounds": {"depths": 2, "cols": 1}}, "thorough": {"bounds": {"depths": 3, "cols": 2, "symbase": 1}}},
+   {"name": "VerifH14Value", "thorough_ok": True, "common": {"max_depth": 2000}, "quick": {"bounds": {"depths": 2, "cols": 1}}, "thorough": {"bounds": {"depths": 3, "cols": 2, "symbase": 1}}},
    {"name": "VerifH14Range", "common": {"max_depth": 2000}, "quick": {"bounds": {"depths": 2, "cols": 1, "ops": 7}}, "thorough": {"bounds": {"depths": 3, "cols": 2, "ops": 7, "symbase": 1}}},
-   {"name": "VerifH14Aggregates", "common": {"max_depth": 3000}, "quick": {"bounds": {"depths": 2, "cols": 2}}, "thorough": {"bounds": {"depths": 3, "cols": 2, "symbase": 1}}},
-   {"name": "VerifH14Import", "common": {"max_depth": 3000}, "quick": {"bounds": {"batches": 2}}, "thorough": {"bounds": {"batches": 3}}},
+   {"name": "VerifH14Aggregates", "thorough_ok": True, "common": {"max_depth": 3000}, "quick": {"bounds": {"depths": 2, "cols": 2}}, "thorough": {"bounds": {"depths": 3, "cols": 2, "symbase": 1}}},
+   {"name": "VerifH14Import", "thorough_ok": True, "common": {"max_depth": 3000}, "quick": {"bounds": {"batches": 2}}, "thorough": {"bounds": {"batches": 3}}},
  ]},
  "C15": {"package": ".", "harnesses": [
    {"name": "VerifH15Algebra", "common": {"max_depth": 3000}, "quick": {"bounds": {"bits": 3, "trees": 9, "colhis": 1}}, "thorough": {"bounds": {"bits": 4, "trees": 9, "colhis": 2}}},
@@ -99,13 +99,13 @@ INDEX = {
  ]},
  "C16": {"package": ".", "harnesses": [
    {"name": "VerifH16Rows", "common": {"max_depth": 3000}, "quick": {"bounds": {"steps": 2, "ops": 9, "rows": 2, "colhis": 1, "caches": 1}}, "thorough": {"bounds": {"steps": 2, "ops": 9, "rows": 4, "colhis": 2, "caches": 3}}},
-   {"name": "VerifH16GroupBy", "common": {"max_depth": 3000}, "quick": {"bounds": {"patterns": 4}}, "thorough": {"bounds": {"patterns": 6}}},
+   {"name": "VerifH16GroupBy", "thorough_ok": True, "common": {"max_depth": 3000}, "quick": {"bounds": {"patterns": 4}}, "thorough": {"bounds": {"patterns": 6}}},
    {"name": "VerifH16RowsNoCache", "common": {"max_depth": 3000}, "quick": {"bounds": {"steps": 2, "ops": 9, "rows": 2, "colhis": 1}}, "thorough": {"bounds": {"steps": 2, "ops": 9, "rows": 4, "colhis": 2}}},
    {"name": "VerifH16RowsTime", "common": {"max_depth": 3000}, "quick": {"bounds": {"quanta": 2}}, "thorough": {"bounds": {"quanta": 4}}},
  ]},
  "C17": {"package": ".", "harnesses": [
-   {"name": "VerifH17MinReducer", "quick": {"bounds": {"partials": 3}}, "thorough": {"bounds": {"partials": 4}}},
-   {"name": "VerifH17MaxReducer", "quick": {"bounds": {"partials": 3}}, "thorough": {"bounds": {"partials": 4}}},
+   {"name": "VerifH17MinReducer", "thorough_ok": True, "quick": {"bounds": {"partials": 3}}, "thorough": {"bounds": {"partials": 4}}},
+   {"name": "VerifH17MaxReducer", "thorough_ok": True, "quick": {"bounds": {"partials": 3}}, "thorough": {"bounds": {"partials": 4}}},
    {"name": "VerifH17SumReducer", "quick": {"bounds": {"partials": 3}}},
  ]},
  "C18": {"package": ".", "harnesses": [
@@ -113,17 +113,17 @@ INDEX = {
    {"name": "VerifH18SetBitViews", "common": {"max_depth": 4000, "allow_go": True}, "quick": {"bounds": {"quanta": 4, "writes": 2, "instants": 3}}, "thorough": {"bounds": {"quanta": 10, "writes": 2, "instants": 5}}},
  ]},
  "C19": {"package": ".", "harnesses": [
-   {"name": "VerifH19ClearBit", "common": {"max_depth": 3000}, "quick": {"bounds": {"quanta": 10, "instants": 3}}, "thorough": {"bounds": {"quanta": 10, "instants": 5}}},
+   {"name": "VerifH19ClearBit", "thorough_ok": True, "common": {"max_depth": 3000}, "quick": {"bounds": {"quanta": 10, "instants": 3}}, "thorough": {"bounds": {"quanta": 10, "instants": 5}}},
  ]},
  "C20": {"package": ".", "harnesses": [
-   {"name": "VerifH20Owners", "common": {"max_depth": 2000}, "quick": {"bounds": {"nodes": 3, "replicas": 4}}, "thorough": {"bounds": {"nodes": 4, "replicas": 5}}},
+   {"name": "VerifH20Owners", "thorough_ok": True, "common": {"max_depth": 2000}, "quick": {"bounds": {"nodes": 3, "replicas": 4}}, "thorough": {"bounds": {"nodes": 4, "replicas": 5}}},
    {"name": "VerifH20OwnsShard", "common": {"max_depth": 2000}, "quick": {"bounds": {"nodes": 3, "replicas": 4}}},
  ]},
  "C21": {"package": ".", "harnesses": [
    {"name": "VerifH21FragSources", "common": {"max_depth": 3000}, "quick": {"bounds": {"nodes": 1, "replicas": 2, "shards": 2}}, "thorough": {"bounds": {"nodes": 2, "replicas": 2, "shards": 3}}},
  ]},
  "C22": {"package": ".", "harnesses": [
-   {"name": "VerifH22Completions", "common": {"max_depth": 3000}, "quick": {"bounds": {"events": 3}}, "thorough": {"bounds": {"events": 4}}},
+   {"name": "VerifH22Completions", "thorough_ok": True, "common": {"max_depth": 3000}, "quick": {"bounds": {"events": 3}}, "thorough": {"bounds": {"events": 4}}},
  ]},
  "C23": {"package": ".", "harnesses": [
    {"name": "VerifH23Gate", "common": {"max_depth": 3000}, "quick": {"bounds": {}}},
@@ -132,22 +132,24 @@ INDEX = {
    {"name": "VerifH24Translate", "common": {"max_depth": 3000}, "quick": {"bounds": {"keys": 3, "keylen": 1, "smalltable": 1, "batches": 2, "xxhash_values": 3}}, "thorough": {"bounds": {"keys": 4, "keylen": 1, "smalltable": 1, "batches": 2, "xxhash_values": 4}, "max_paths": 600000}},
  ]},
  "C25": {"package": ".", "harnesses": [
-   {"name": "VerifH25BlockDiff", "common": {"max_depth": 3000}, "quick": {"bounds": {"blocks": 2}}, "thorough": {"bounds": {"blocks": 3}}},
+   {"name": "VerifH25BlockDiff", "thorough_ok": True, "common": {"max_depth": 3000}, "quick": {"bounds": {"blocks": 2}}, "thorough": {"bounds": {"blocks": 3}}},
    {"name": "VerifH25AttrCodec", "common": {"max_depth": 3000}, "quick": {"bounds": {}}},
    {"name": "VerifH25Store", "package": "./boltdb", "common": {"max_depth": 4000, "max_steps": 50000000}, "quick": {"bounds": {"steps": 2, "ops": 3, "keys": 1}}, "thorough": {"bounds": {"steps": 2, "ops": 3, "keys": 2}}},
+   {"name": "VerifH25BulkRowAttrs", "common": {"max_depth": 3000}, "quick": {"bounds": {"calls": 2}}, "thorough": {"bounds": {"calls": 3}}},
  ]},
  "C26": {"package": "./pql", "harnesses": [
    {"name": "VerifH26ParseConcrete", "quick": {"bounds": {}}},
    {"name": "VerifH26StringLiteral", "common": {"max_depth": 3000}, "quick": {"bounds": {"len": 2}}, "thorough": {"bounds": {"len": 3}}},
    {"name": "VerifH26UnicodeLiteral", "common": {"max_depth": 3000}, "quick": {"bounds": {}}},
    {"name": "VerifH26Forward", "common": {"max_depth": 3000}, "quick": {"bounds": {"kinds": 4, "len": 1}}, "thorough": {"bounds": {"kinds": 4, "len": 2}}},
+   {"name": "VerifH26ConditionThenArg", "common": {"max_depth": 4000}, "quick": {"bounds": {"conds": 7}}},
  ]},
  "C27": {"package": "./encoding/proto", "harnesses": [
    {"name": "VerifH27Messages", "common": {"max_depth": 3000}, "quick": {"bounds": {"strlen": 1, "slice": 1, "types": 12, "intclasses": 2}}, "thorough": {"bounds": {"strlen": 1, "slice": 2, "types": 12, "intclasses": 3}}},
    {"name": "VerifH27Garbage", "common": {"max_depth": 3000}, "quick": {"bounds": {"len": 4, "targets": 14}}, "thorough": {"bounds": {"len": 6, "targets": 14}}},
  ]},
  "C28": {"package": ".", "harnesses": [
-   {"name": "VerifH28WritePaths", "common": {"max_depth": 3000}, "quick": {"bounds": {"bits": 2, "rows": 2, "colhis": 1, "caches": 2}}, "thorough": {"bounds": {"bits": 2, "rows": 3, "colhis": 2, "caches": 3}}},
+   {"name": "VerifH28WritePaths", "thorough_ok": True, "common": {"max_depth": 3000}, "quick": {"bounds": {"bits": 2, "rows": 2, "colhis": 1, "caches": 2}}, "thorough": {"bounds": {"bits": 2, "rows": 3, "colhis": 2, "caches": 3}}},
    {"name": "VerifH28FieldPaths", "common": {"max_depth": 4000, "allow_go": True}, "quick": {"bounds": {"types": 5, "writes": 2}}, "thorough": {"bounds": {"types": 5, "writes": 3}}},
  ]},
 }
